@@ -179,6 +179,8 @@ def observe_impl(t, obs, fields, buffer_type=None):
     if k == 'write':
         from bionumpy.io.parser import NpBufferedWriter
         b = io.BytesIO()
+        if buffer_type.__name__.startswith('Bam'):
+            b.name = 'x.bam'
         NpBufferedWriter(b, buffer_type).write(t)
         return b.getvalue()
     raise ValueError(obs)
